@@ -61,9 +61,10 @@ def apply_op(dev, op):
         if op == 'w1':
             dev.write_bit(True)
             return ('ok',)
-        if op == 'get':
-            return ('bytes', bytes(dev.get_output()))
-        return ('bytes', bytes(dev.get_output(allow_incomplete_output=True)))
+        r = dev.get_output() if op == 'get' else dev.get_output(allow_incomplete_output=True)
+        if not isinstance(r, bytes):
+            return ('not-bytes', type(r).__name__)  # the collected output is an immutable bytes value, not a live buffer
+        return ('bytes', bytes(r))
     except IOReadOnEOF:
         return ('EOF',)
     except IncompleteOutput:
